@@ -5,10 +5,11 @@ HERE = os.path.dirname(os.path.dirname(os.path.abspath(__file__)))
 sys.path.insert(0, HERE)
 props = [json.loads(l) for l in open(os.path.join(HERE, "properties.jsonl"))]
 checks, na = [], []
+ready = set(open(os.path.join(HERE, "vf", "props", "READY")).read().split())
 for p in props:
     pid = p["id"]
     path = os.path.join(HERE, "vf", "props", pid.lower() + ".py")
-    if not os.path.exists(path):
+    if pid not in ready or not os.path.exists(path):
         na.append(dict(property_id=pid, reason="check not built yet (planned: see DESIGN.md section 4); nothing is claimed for it"))
         continue
     mod = importlib.import_module("vf.props." + pid.lower())
